@@ -176,6 +176,39 @@ func (m *sqliteModel) findWriters(fn *Func) {
 	// which params are bound on every path reaching Prepare
 	fl := m.r.P.FlowOf(fn)
 	paths, ok := fl.Paths()
+	// bindings made in a helper (a method of Stmt, a function taking the statement) appear on the paths
+	// with the helper's parameters replaced by the arguments: collect those too
+	if ok {
+		for i := range paths {
+			for _, e := range paths[i].Ev {
+				if e.Kind != EvCall || e.Depth == 0 {
+					continue
+				}
+				k := CalleeKey(e)
+				if !strings.HasPrefix(k, pkgSqlite+".Stmt.") || len(e.Call.Args) < 1 {
+					continue
+				}
+				cl := stmtClassOfSetter(k[strings.LastIndex(k, ".")+1:])
+				w := writers[recvObj(info, e.Call)]
+				if cl == "" || w == nil {
+					continue
+				}
+				pn, isC := ConstString(info, e.Call.Args[0])
+				if !isC {
+					continue
+				}
+				if _, have := w.Binds[pn]; have {
+					continue
+				}
+				b := &binding{Param: pn, Class: cl, Pos: e.Call.Pos()}
+				if len(e.Call.Args) > 1 {
+					b.Expr = e.Call.Args[1]
+					b.Src = m.sourceField(fn, b.Expr, 0)
+				}
+				w.Binds[pn] = b
+			}
+		}
+	}
 	for recv, w := range writers {
 		always := map[string]int{}
 		nPrep := 0
